@@ -10,6 +10,7 @@ Code inspired by/based on https://github.com/tomchy/suit-composer.
 from __future__ import annotations
 from dataclasses import dataclass
 from typing import cast, Any
+from collections.abc import Mapping
 import functools
 import binascii
 import logging
@@ -154,12 +155,36 @@ class SuitObject(PrettyPrintHelperMixin):
             )
 
     @staticmethod
+    def validate_decoded_size(obj: Any, encoded_length: int) -> None:
+        """Reject decoded data consisting of more items than its encoding has bytes.
+
+        Every CBOR data item occupies at least one byte, so this is only possible with value sharing (tags 28/29),
+        where a few hundred bytes can reference an exponentially large (or cyclic) structure that would be expanded
+        when the value is processed. SUIT does not use value sharing.
+        """
+        count = 0
+        stack = [obj]
+        while stack:
+            count += 1
+            if count > encoded_length:
+                raise ValueError("Decoded data is larger than its encoding (shared value references are not supported)")
+            item = stack.pop()
+            if isinstance(item, cbor2.CBORTag):
+                stack.append(item.value)
+            elif isinstance(item, (list, tuple)):
+                stack.extend(item)
+            elif isinstance(item, Mapping):
+                for key, value in item.items():
+                    stack.append(key)
+                    stack.append(value)
+
+    @staticmethod
     def deserialize_cbor(cbstr: bytes) -> Any:
         """Verify and deserialize cbor object."""
         # Ensure that cbor2.loads() will not consume all the available memory
         SuitObject.validate_cbor(cbstr)
         try:
-            return cbor2.loads(cbstr)
+            obj = cbor2.loads(cbstr)
         except ImportError as err:
             # Can occur due to possible incompatibilities in packages between virtual environment and system scope
             # (seen on Windows, where cbor2 was installed globally and in virtual environment)
@@ -178,6 +203,8 @@ class SuitObject(PrettyPrintHelperMixin):
             #   d81e84ffffffff -> SystemError
             #   d8234129 -> re.error
             raise ValueError("Cannot deserialize data!")
+        SuitObject.validate_decoded_size(obj, len(cbstr))
+        return obj
 
     @staticmethod
     def serialize_cbor(obj: Any) -> bytes:
